@@ -3,6 +3,8 @@ use crate::common::*;
 pub mod c01;
 pub mod c02;
 pub mod c03;
+pub mod c04;
+pub mod c05;
 pub mod c07;
 pub mod c09;
 pub mod c10;
@@ -60,6 +62,8 @@ pub fn dispatch(id: &str, tier: Tier, replay: Option<&str>) -> i32 {
             rep
         }
         "C03" => c03::run(tier),
+        "C04" => c04::run_c04(tier),
+        "C05" => c05::run_check(tier),
         "C07" => c07::run(tier),
         "C08" => c08::run(tier),
         "C09" => c09::run(tier),
